@@ -287,6 +287,18 @@ fn c12_one(ctx: &mut Ctx, c: &DayCase, r: &mut Rng) {
                     }
                 }
             }
+            // the same with Fajr itself defined by an interval (both intervals inside the quantifier)
+            let iv2 = r.int(1, 120) as f64;
+            let c5 = c4.with(|p| *p.intervals.get_mut(&Prayer::Fajr).unwrap() = iv2);
+            if let Ok(d5) = c5.run() {
+                if let (Some((f, fe)), Some((im, ime))) = (t(&d5, Prayer::Fajr), t(&d5, Prayer::Imsaak)) {
+                    ctx.branch("fajr-and-imsaak-interval");
+                    if cdiff(im, f - 60. * iv).abs() > 1. || fe != ime {
+                        ctx.fail(c5.to_json(), format!("Imsaak {} (extreme {}) Fajr {} (extreme {}) Imsaak interval {} Fajr interval {}", hms(im as i64), ime, hms(f as i64), fe, iv, iv2), "Imsaak = Fajr - interval, same flag".into());
+                        return;
+                    }
+                }
+            }
             if let (Some((f, true)), Some((im, ime))) = (t(&base, Prayer::Fajr), t(&base, Prayer::Imsaak)) {
                 if c.p.intervals[&Prayer::Imsaak] == 0. && (cdiff(im, f - 90.).abs() > 1. || !ime) {
                     ctx.fail(c.to_json(), format!("Fajr extreme {}; Imsaak {} extreme {}", hms(f as i64), hms(im as i64), ime), "Imsaak 1.5 min before an extreme Fajr, extreme too".into());
